@@ -132,6 +132,12 @@ func strKind(s string) string {
 	if _, err := strconv.ParseFloat(s, 64); err == nil {
 		return "str-number-like"
 	}
+	if strings.ContainsRune(s, '`') {
+		return "str-backtick"
+	}
+	if s[0] == '-' || s[0] == '+' {
+		return "str-sign-led"
+	}
 	ctrl, high, punct := false, false, false
 	for _, c := range s {
 		switch {
